@@ -381,9 +381,13 @@ def run(pid, tier, seed):
     if runs:
         for r in runs[:2]:
             samples.append({"scenario": r[0].get("scn"), "events": r[:14]})
+    beyond = {}
+    if pid == "C01":
+        beyond = beyond_the_property(tier, rnd, work)
     C.write_evidence(pid, tier, seed, "model_checking", {
         "states": mc.distinct, "transitions": mc.generated,
         "traces_validated_against_impl": accepted,
+        "beyond_the_property": beyond,
         "samples": samples,
         "evaluations": len(scenarios), "distinct_nontrivial": nontriv,
         "rule": ("seeded random handler trees (<= 17 builder calls: Pipeline/SimplePipeline, fluent calls, pipeline()/end(), shared "
@@ -404,6 +408,52 @@ def run(pid, tier, seed):
         "formatters returning a null QString are not generated (DESIGN 3.1f)",
     ])
     return 1 if violations else 0
+
+
+def beyond_the_property(tier, rnd, work):
+    """Specification growth beyond the listed properties, reported as NOTE lines of C01 (never as violations of it):
+    the line sinks at the end of a pipeline (QtlLineSinks: IODeviceSink, SyslogSink) and the environment attribute
+    handlers at its start (QtlEnv: AppInfoAttrs, AppUuidAttr, SysInfoAttrs)."""
+    from . import env_spec
+    out = {}
+    try:
+        bd = C.ensure_harness("asan", ["drv_env"])
+        mce = C.run_tlc("MC_Env", "MC_Env.cfg", workers=4, deadlock=False)
+        wit = C.run_tlc("MC_Env", "MC_Env_W_OneUuid.cfg", workers=2, deadlock=False)
+        if mce.violation:
+            print("NOTE property=C01 MC_Env: " + str(mce.violation)[:200], flush=True)
+        if not wit.violation:
+            print("NOTE property=C01 MC_Env_W_OneUuid: the witness configuration no longer violates - the exhaustive run may be vacuous", flush=True)
+        a_acc, a_fail, a_info = env_spec.attrs_campaign(bd, rnd, 40 if tier == "quick" else 1200, work)
+        if a_fail:
+            print(f"NOTE property=C01 the environment attribute handlers (spec/QtlEnv.tla: snapshot at construction, persistent "
+                  f"application UUID) rejected {len(a_fail)} of {a_info['histories']} histories; first: "
+                  f"{json.dumps(a_fail[0]['event'])[:300]}", flush=True)
+        out["environment_attribute_handlers"] = dict(a_info, accepted_histories=a_acc, rejected_histories=len(a_fail),
+                                                     model_states=mce.distinct, witness_violates=bool(wit.violation))
+        mcl = C.run_tlc("MC_LineSinks", "MC_LineSinks.cfg" if tier == "quick" else "MC_LineSinks_thorough.cfg", workers=8,
+                        deadlock=False, timeout=1500)
+        w1 = C.run_tlc("MC_LineSinks", "MC_LineSinks_W_Tag.cfg", workers=2, deadlock=False)
+        w2 = C.run_tlc("MC_LineSinks", "MC_LineSinks_W_OwnIdent.cfg", workers=2, deadlock=False)
+        if mcl.violation:
+            print("NOTE property=C01 MC_LineSinks: " + str(mcl.violation)[:200], flush=True)
+        if not (w1.violation and w2.violation):
+            print("NOTE property=C01 MC_LineSinks: a witness configuration no longer violates", flush=True)
+        s_acc, s_fail, s_info = env_spec.sinks_campaign(bd, rnd, 80 if tier == "quick" else 3000, work)
+        if s_fail:
+            print(f"NOTE property=C01 the line sinks (spec/QtlLineSinks.tla: IODeviceSink writes the shown text and one newline, "
+                  f"SyslogSink's priority table and text) rejected {len(s_fail)} of {s_info['histories']} histories; first: "
+                  f"{json.dumps(s_fail[0]['event'])[:300]}", flush=True)
+        elif s_info["ident_pointer"] == "dangling":
+            print("NOTE property=C01 observation beyond the list: SyslogSink gives openlog() a pointer into a temporary "
+                  "(qPrintable(ident)); the C library keeps the pointer, the memory is gone at every later syslog() call "
+                  "(MC_LineSinks_W_Tag violates IdentMemoryAlive; the recorded executions match conf.keepsIdent = FALSE)", flush=True)
+        out["line_sinks"] = dict(s_info, accepted_histories=s_acc, rejected_histories=len(s_fail), model_states=mcl.distinct,
+                                 witnesses_violate=bool(w1.violation and w2.violation))
+    except C.ToolFailure as e:
+        print("NOTE property=C01 the beyond-the-list campaigns (QtlEnv, QtlLineSinks) could not run: " + str(e)[:300], flush=True)
+        out["error"] = str(e)[:300]
+    return out
 
 
 def replay(pid, path):
